@@ -121,38 +121,35 @@ Lemma In_of_nat8 x : x < 8 -> In x (map N.of_nat (seq 0 8)).
 Proof. intros H. apply in_map_iff. exists (N.to_nat x). split; [apply N2Nat.id|]. apply in_seq. lia. Qed.
 Lemma san_string_ok mv p : wf_bmove mv -> promo_ok mv -> san_ok (san_string mv p) = true.
 Proof.
-  intros W P. destruct mv as [m| |].
+  intros W P.
+  set (chk := if mp_mate p then [35] else if mp_check p then [43] else []).
+  assert (Ik : In chk chk_texts) by (unfold chk, chk_texts; destruct (mp_mate p); [left; reflexivity|]; destruct (mp_check p); [right; left; reflexivity|right; right; left; reflexivity]).
+  destruct mv as [m| |].
   - destruct W as [Wf Wt]. cbn [promo_ok] in P.
     set (a := match mp_amb p with ExtraFile => print_file (file (pm_from m)) | ExtraRank => print_rank (rank (pm_from m))
                                 | ExtraSquare => print_sq (pm_from m) | AmbNeither => [] end).
-    set (chk := if mp_mate p then [35] else if mp_check p then [43] else []).
-    assert (E : san_string (MovePiece m) p = san_parts (pm_type m) a (mp_capture p) (pm_to m) (pm_promo m) chk)
-      by (unfold san_string, san_parts, a, chk; destruct (pm_type m); reflexivity).
-    rewrite E. clear E.
-    pose proof san_sweep as S. rewrite forallb_forall in S.
-    assert (I1 : In (pm_type m) all_types) by (destruct (pm_type m); cbn; tauto). specialize (S _ I1). cbn beta in S. rewrite forallb_forall in S.
-    assert (I2 : In a amb_texts).
-    { unfold a, amb_texts. destruct (mp_amb p).
-      - right. apply in_or_app. left. apply in_map. apply In_of_nat8. apply file_lt. exact Wf.
-      - right. apply in_or_app. right. apply in_or_app. left. apply in_map. apply In_of_nat8. apply rank_lt. exact Wf.
-      - right. apply in_or_app. right. apply in_or_app. right. apply in_map. apply In_squares. exact Wf.
-      - left. reflexivity. }
-    specialize (S _ I2). cbn beta in S. rewrite forallb_forall in S.
-    assert (I3 : In (mp_capture p) [true; false]) by (destruct (mp_capture p); cbn; tauto). specialize (S _ I3). cbn beta in S. rewrite forallb_forall in S.
-    specialize (S _ (proj2 (In_squares _) Wt)). cbn beta in S. rewrite forallb_forall in S.
-    specialize (S _ P). cbn beta in S. rewrite forallb_forall in S.
-    apply S. unfold chk, chk_texts. destruct (mp_mate p); [left; reflexivity|]. destruct (mp_check p); [right; left; reflexivity|right; right; left; reflexivity].
-  - pose proof castle_sweep as S. rewrite forallb_forall in S.
-    set (chk := if mp_mate p then [35] else if mp_check p then [43] else []).
-    assert (I : In chk chk_texts) by (unfold chk, chk_texts; destruct (mp_mate p); [left; reflexivity|]; destruct (mp_check p); [right; left; reflexivity|right; right; left; reflexivity]).
-    specialize (S _ I). cbn beta in S. apply andb_prop in S. exact (proj1 S).
-  - pose proof castle_sweep as S. rewrite forallb_forall in S.
-    set (chk := if mp_mate p then [35] else if mp_check p then [43] else []).
-    assert (I : In chk chk_texts) by (unfold chk, chk_texts; destruct (mp_mate p); [left; reflexivity|]; destruct (mp_check p); [right; left; reflexivity|right; right; left; reflexivity]).
-    specialize (S _ I). cbn beta in S. apply andb_prop in S. exact (proj2 S).
+    assert (E : san_string (MovePiece m) p = core_parts (pm_type m) a (mp_capture p) (pm_to m) ++ suffix_parts (pm_promo m) chk)
+      by (unfold san_string, core_parts, suffix_parts, a, chk; destruct (pm_type m); rewrite <- ?app_assoc; reflexivity).
+    rewrite E. clear E. apply combine_ok.
+    + pose proof core_sweep as S. rewrite forallb_forall in S.
+      assert (I1 : In (pm_type m) all_types) by (destruct (pm_type m); cbn; tauto). specialize (S _ I1). cbn beta in S. rewrite forallb_forall in S.
+      assert (I2 : In a amb_texts).
+      { unfold a, amb_texts. destruct (mp_amb p).
+        - right. apply in_or_app. left. apply in_map. apply In_of_nat8. apply file_lt. exact Wf.
+        - right. apply in_or_app. right. apply in_or_app. left. apply in_map. apply In_of_nat8. apply rank_lt. exact Wf.
+        - right. apply in_or_app. right. apply in_or_app. right. apply in_map. apply In_squares. exact Wf.
+        - left. reflexivity. }
+      specialize (S _ I2). cbn beta in S. rewrite forallb_forall in S.
+      assert (I3 : In (mp_capture p) [true; false]) by (destruct (mp_capture p); cbn; tauto). specialize (S _ I3). cbn beta in S. rewrite forallb_forall in S.
+      exact (S _ (proj2 (In_squares _) Wt)).
+    + pose proof suffix_sweep as S. rewrite forallb_forall in S. specialize (S _ P). cbn beta in S. rewrite forallb_forall in S. exact (S _ Ik).
+  - change (san_string CastleK p) with ([79; 45; 79] ++ suffix_parts None chk). apply combine_ok.
+    + pose proof castle_cores as S. apply andb_prop in S. exact (proj1 S).
+    + pose proof suffix_sweep as S. rewrite forallb_forall in S. specialize (S None (or_introl eq_refl)). cbn beta in S. rewrite forallb_forall in S. exact (S _ Ik).
+  - change (san_string CastleQ p) with ([79; 45; 79; 45; 79] ++ suffix_parts None chk). apply combine_ok.
+    + pose proof castle_cores as S. apply andb_prop in S. exact (proj2 S).
+    + pose proof suffix_sweep as S. rewrite forallb_forall in S. specialize (S None (or_introl eq_refl)). cbn beta in S. rewrite forallb_forall in S. exact (S _ Ik).
 Qed.
-Lemma beq_toks_eq a b : beq_toks a b = true -> a = b.
-Proof. unfold beq_toks. destruct (list_eq_dec (list_eq_dec N.eq_dec) a b); [trivial|discriminate]. Qed.
 Lemma san_ok_spec s : san_ok s = true -> scan moves_re s 0 = [s] /\ scan result_re s 0 = [] /\ forallb plain_char s = true.
 Proof. unfold san_ok. intros H. apply andb_prop in H. destruct H as [H H3]. apply andb_prop in H. destruct H as [H1 H2]. auto using beq_toks_eq. Qed.
 
